@@ -149,6 +149,7 @@ func runAction(t *T, action func(*T)) (invalid bool, skipped bool) {
 			if _, ok := r.(invalidData); ok {
 				invalid = true
 				skipped = t.draws == draws
+				t.failOnError() // a non-fatal failure followed by a skip is still a failure: stop here
 			} else {
 				panic(r)
 			}
